@@ -284,3 +284,140 @@ add('c13-edge-not-forwarded', CY, "                cycle_checks = is_good(cycle_
 add('c13-container-default-edge', CY, "                                  functools.partial(is_good, phase_edge=phase_edge), dtype=int)", "                                  is_good, dtype=int)", 'breaking', ['C13'], 'C13.R3')
 add('c13-mask-slice-shifted', CY, "                if any(~mask[inds[jj]:inds[jj + 1]]):", "                if any(~mask[inds[jj] + 1:inds[jj + 1]]):", 'breaking', ['C13'], 'C13.R2')
 add('c13-equiv-benign', CY, "    if (phase[0] >= phase_min and phase[0] <= phase_min + phase_edge):", "    if (phase_min <= phase[0] <= phase_min + phase_edge):", 'benign', ['C13'])
+
+
+# ---------------------------------------------------------------- C14 per-cycle statistics / phase alignment
+CS = 'emd/_cycles_support.py'
+CY = 'emd/cycles.py'
+_STAT = ("        inds = map_cycle_to_samples(cycle_vect, ii)\n        if isinstance(vals, tuple):\n"
+         "            args = [v[inds] for v in vals]\n            out[ii] = func(*args)\n        else:\n"
+         "            out[ii] = func(vals[inds])")
+add('c14-stat-next-cycle', CS, _STAT, _STAT.replace('map_cycle_to_samples(cycle_vect, ii)', 'map_cycle_to_samples(cycle_vect, ii + 1)'),
+    'breaking', ['C14'], 'C14.R1')
+add('c14-stat-drop-last-sample', CS, _STAT, _STAT.replace('func(vals[inds])', 'func(vals[inds[:-1]])'),
+    'breaking', ['C14'], 'C14.R1')
+add('c14-stat-wrong-slot', CS, _STAT, _STAT.replace('            out[ii] = func(vals[inds])', '            out[ii - 1] = func(vals[inds])'),
+    'breaking', ['C14'], 'C14.R1')
+add('c14-stat-tuple-first-only', CS, _STAT, _STAT.replace('args = [v[inds] for v in vals]', 'args = [vals[0][inds] for v in vals]'),
+    'breaking', ['C14'], 'C14.R1')
+add('c14-map-ge', CS, "    sample_inds = np.where(cycle_vect == ii)[0]", "    sample_inds = np.where(cycle_vect >= ii)[0]",
+    'breaking', ['C14', 'C16'], 'R')
+add('c14-map-flatnonzero-benign', CS, "    sample_inds = np.where(cycle_vect == ii)[0]", "    sample_inds = np.flatnonzero(cycle_vect == ii)",
+    'benign', ['C14', 'C16'])
+_PROJ = ('    """Transform per-cycle data to full sample vector."""\n'
+         '    out = np.zeros_like(cycle_vect).astype(float) * np.nan')
+add('c14-project-zero-init', CS, _PROJ, _PROJ.replace(' * np.nan', ''), 'breaking', ['C14', 'C16'], 'R')
+add('c14-project-full-nan-benign', CS, _PROJ, _PROJ.replace('np.zeros_like(cycle_vect).astype(float) * np.nan', 'np.full(cycle_vect.shape, np.nan)'),
+    'benign', ['C14', 'C16'])
+_PROJ2 = ("        inds = map_cycle_to_samples(cycle_vect, ii)\n        out[inds] = vals[ii]\n    return out")
+add('c14-project-first-sample-only', CS, _PROJ2, _PROJ2.replace('out[inds] = vals[ii]', 'out[inds[0]] = vals[ii]'),
+    'breaking', ['C14'], 'C14.R2')
+add('c14-project-value-shift', CS, _PROJ2, _PROJ2.replace('out[inds] = vals[ii]', 'out[inds] = vals[ii - 1]'),
+    'breaking', ['C14'], 'C14.R2')
+add('c14-align-edges', CY, "        avg[:, cind] = f(phase_bins)", "        avg[:, cind] = f(phase_edges[:-1])", 'breaking', ['C14'], 'C14.R3')
+add('c14-align-column', CY, "        avg[:, cind] = f(phase_bins)", "        avg[:, cind - 1] = f(phase_bins)", 'breaking', ['C14'], 'C14.R3')
+add('c14-align-x-shifted', CY, "        x_data = x[cycle_inds]\n", "        x_data = x[cycle_inds - 1]\n", 'breaking', ['C14'], 'C14.R3')
+add('c14-align-grid-range', CY, "        phase_edges, phase_bins = spectra.define_hist_bins(0, 2 * np.pi, npoints)\n    elif mode == 'augmented':",
+    "        phase_edges, phase_bins = spectra.define_hist_bins(0, np.pi, npoints)\n    elif mode == 'augmented':", 'breaking', ['C14'], 'C14.R3')
+add('c14-bin-loop-short', CY, "    for ii in range(1, nbins + 1):\n        inds = bin_inds == ii", "    for ii in range(1, nbins):\n        inds = bin_inds == ii",
+    'breaking', ['C14'], 'C14.R4')
+add('c14-bin-class-shift', CY, "    for ii in range(1, nbins + 1):\n        inds = bin_inds == ii", "    for ii in range(1, nbins + 1):\n        inds = bin_inds == ii - 1",
+    'breaking', ['C14'], 'C14.R4')
+add('c14-bin-paren-benign', CY, "    for ii in range(1, nbins + 1):\n        inds = bin_inds == ii", "    for ii in range(1, nbins + 1):\n        inds = (bin_inds == ii)",
+    'benign', ['C14'])
+
+# ---------------------------------------------------------------- C16 index maps
+add('c16-subset-sentinel-ge', CS, "    return subset_ind if subset_ind > -1 else None", "    return subset_ind if subset_ind > 0 else None",
+    'breaking', ['C16'], 'C16.R2')
+add('c16-subset-sentinel-dropped', CS, "    return subset_ind if subset_ind > -1 else None", "    return subset_ind",
+    'breaking', ['C16'], 'C16.R2')
+add('c16-subset-sentinel-ge0-benign', CS, "    return subset_ind if subset_ind > -1 else None", "    return subset_ind if subset_ind >= 0 else None",
+    'benign', ['C16'])
+add('c16-sample-guard-dropped', CS, "    if all_cycle_ind is None or all_cycle_ind < 0:\n        # Samples outside any cycle are labelled -1\n        return None\n",
+    "", 'breaking', ['C16'], 'C16.R2')
+add('c16-subset-to-cycle-wrong-vector', CS, "    all_cycle_ind = map_subset_to_cycle(subset_vect, ii)\n    return map_cycle_to_samples(cycle_vect, all_cycle_ind)",
+    "    all_cycle_ind = map_subset_to_cycle(subset_vect, ii)\n    return map_cycle_to_samples(subset_vect, all_cycle_ind)", 'breaking', ['C16'], 'C16.R1')
+add('c16-chain-skips-subset', CS, "    subset_inds = map_chain_to_subset(chain_vect, ii)\n    sample_inds = [map_subset_to_sample(subset_vect, cycle_vect, jj) for jj in subset_inds]",
+    "    subset_inds = map_chain_to_subset(chain_vect, ii)\n    sample_inds = [map_cycle_to_samples(cycle_vect, jj) for jj in subset_inds]", 'breaking', ['C16'], 'C16.R1')
+add('c16-cycle-to-chain-no-none', CS, "    subset_cycle_ind = map_cycle_to_subset(subset_vect, ii)\n    if subset_cycle_ind is None:\n        return None\n",
+    "    subset_cycle_ind = map_cycle_to_subset(subset_vect, ii)\n", 'breaking', ['C16'], 'C16.R2')
+add('c16-project-chain-via-cycles', CS, "    subset_vals = project_chain_to_subset(vals, chain_vect)\n    return project_subset_to_cycles(subset_vals, subset_vect)",
+    "    subset_vals = project_chain_to_subset(vals, chain_vect)\n    return project_subset_to_cycles(subset_vals, chain_vect)", 'breaking', ['C16'], 'C16.R')
+add('c16-project-subset-map', CS, "        inds = map_subset_to_cycle(subset_vect, ii)\n        out[inds] = vals[ii]",
+    "        inds = map_cycle_to_subset(subset_vect, ii)\n        out[inds] = vals[ii]", 'breaking', ['C16'], 'C16.R')
+add('c16-chain-to-cycle-squeeze', CS, "    cycle_ind = np.hstack([map_subset_to_cycle(subset_vect, jj) for jj in subset_ind])",
+    "    cycle_ind = np.squeeze([map_subset_to_cycle(subset_vect, jj) for jj in subset_ind])", 'breaking', ['C16'], 'C16.R3')
+add('c16-chain-to-cycle-concat-benign', CS, "    cycle_ind = np.hstack([map_subset_to_cycle(subset_vect, jj) for jj in subset_ind])",
+    "    cycle_ind = np.concatenate([map_subset_to_cycle(subset_vect, jj) for jj in subset_ind])", 'benign', ['C16'])
+
+# ---------------------------------------------------------------- C17 feature matching
+add('c17-unique-sorted-space', CY, "    ar_inds = [np.where(ar == ii)[0] for ii in aux[mask]]", "    ar_inds = [np.where(aux == ii)[0] for ii in aux[mask]]",
+    'breaking', ['C17'], 'C17.R1')
+add('c17-unique-inplace-sort', CY, "    aux = np.sort(ar)\n", "    ar.sort()\n    aux = ar\n", 'breaking', ['C17'], 'C17.R1')
+add('c17-range-guard-dropped', CY, "        if (np.sum(II[ii, :]) == 1) and (winner[ii] < y.shape[0]) and \\\n           (inds[ii, winner[ii]] < y.shape[0]):",
+    "        if (np.sum(II[ii, :]) == 1) and (winner[ii] < y.shape[0]):", 'breaking', ['C17'], 'C17.R2')
+add('c17-range-guard-le', CY, "           (inds[ii, winner[ii]] < y.shape[0]):", "           (inds[ii, winner[ii]] <= y.shape[0]):", 'breaking', ['C17'], 'C17.R2')
+add('c17-final-not-winner', CY, "            final[ii] = inds[ii, winner[ii]]", "            final[ii] = inds[ii, 0]", 'breaking', ['C17'], 'C17.R2')
+add('c17-xinds-ge-minus1', CY, "    x_inds = np.where(final > -1)[0]", "    x_inds = np.where(final >= -1)[0]", 'breaking', ['C17'], 'C17.R2')
+add('c17-yinds-all', CY, "    y_inds = final[x_inds]", "    y_inds = final[final > 0]", 'breaking', ['C17'], 'C17.R2')
+add('c17-k-not-forwarded', CY, "    D, inds = kdt.query(x, k=K, distance_upper_bound=distance_upper_bound)", "    D, inds = kdt.query(x, k=2, distance_upper_bound=distance_upper_bound)",
+    'breaking', ['C17'], 'C17.R2')
+add('c17-bound-not-forwarded', CY, "    D, inds = kdt.query(x, k=K, distance_upper_bound=distance_upper_bound)", "    D, inds = kdt.query(x, k=K)",
+    'breaking', ['C17'], 'C17.R2')
+add('c17-xinds-ge0-benign', CY, "    x_inds = np.where(final > -1)[0]", "    x_inds = np.where(final >= 0)[0]", 'benign', ['C17'])
+
+# ---------------------------------------------------------------- C18 configurations
+add('c18-getitem-depth3-wrong', S, "                return self.store[key[0]][key[1]][key[2]]", "                return self.store[key[0]][key[1]]",
+    'breaking', ['C18'], 'C18.R')
+add('c18-setitem-depth2-top', S, "                self.store[key[0]][key[1]] = value", "                self.store[key[1]] = value",
+    'breaking', ['C18'], 'C18.R')
+add('c18-delitem-depth2-parent', S, "                del self.store[key[0]][key[1]]\n            elif", "                del self.store[key[0]]\n            elif", 'breaking', ['C18'], 'C18.R')
+add('c18-keytransform-sep', S, "        key = key.split('/')\n        if len(key) == 1:", "        key = key.split('.')\n        if len(key) == 1:",
+    'breaking', ['C18'], 'C18.R')
+add('c18-yaml-type-lost', S, "            ret.sift_type = cfg[0]['sift_type']\n            ret.store = cfg[1]\n        return ret",
+    "            ret.store = cfg[1]\n        return ret", 'breaking', ['C18'], 'C18.R')
+add('c18-yaml-text-drops-type', S, "        return [{'sift_type': self.sift_type}, conf]", "        return [{'sift_type': 'sift'}, conf]",
+    'breaking', ['C18'], 'C18.R')
+add('c18-get-func-wrong-type', S, "        func = getattr(mod, self.sift_type)\n        return functools.partial(func, **self.store)",
+    "        func = getattr(mod, 'sift')\n        return functools.partial(func, **self.store)", 'breaking', ['C18'], 'C18.R')
+add('c18-tuple-not-converted', S, "        elif isinstance(val, tuple):\n            out[key] = list(val)\n", "", 'breaking', ['C18'], 'C18.R6')
+add('c18-nested-not-converted', S, "            out[key] = _array_or_tuple_to_list(val)", "            out[key] = val", 'breaking', ['C18'], 'C18.R')
+add('c18-config-pad-default', S, "    mag_pad_opts = {'mode': 'median', 'stat_length': 1}\n    loc_pad_opts = {'mode': 'reflect', 'reflect_type': 'odd'}\n\n    # Get defaults for extrema detection",
+    "    mag_pad_opts = {'mode': 'median', 'stat_length': 2}\n    loc_pad_opts = {'mode': 'reflect', 'reflect_type': 'odd'}\n\n    # Get defaults for extrema detection",
+    'breaking', ['C18'], 'C18.R1')
+add('c18-config-ignore-missing', S, "    imf_opts = _get_function_opts(get_next_imf, ignore=['X', 'envelope_opts', 'extrema_opts'])",
+    "    imf_opts = _get_function_opts(get_next_imf, ignore=['envelope_opts', 'extrema_opts'])", 'breaking', ['C18'], 'C18.R')
+
+# ---------------------------------------------------------------- C19 input layout / validation / non-mutation
+SU = 'emd/support.py'
+add('c19-vector-accepts-wide', SU, "        elif (xx.ndim > 1) and (xx.shape[1] != 1):\n            msg = \"Checking {0} inputs - Input '{1}' {2} must be a vector or 2d with singleton second dim\"\n            msg = msg.format(func_name, names[idx], xx.shape)\n            logger.error(msg)\n            raise ValueError(msg)",
+    "        elif (xx.ndim > 1) and (xx.shape[1] != 1):\n            out_args[idx] = out_args[idx][:, 0]", 'breaking', ['C19'], 'C19.R')
+add('c19-vector-keeps-column', SU, "            out_args[idx] = out_args[idx][:, 0]\n            logger.warning(msg)", "            logger.warning(msg)",
+    'breaking', ['C19'], 'C19.R')
+add('c19-equal-dims-any', SU, "    if np.all(check) == False:  # noqa: E712", "    if np.any(check) == False:  # noqa: E712", 'breaking', ['C19'], 'C19.R')
+add('c19-equal-dims-first-only', SU, "    check = [True] + [all_dims[0] == all_dims[ii + 1] for ii in range(len(all_dims[1:]))]",
+    "    check = [True] + [all_dims[0] == all_dims[1]]", 'breaking', ['C19'], 'C19.R')
+add('c19-equal-dims-not-benign', SU, "    if np.all(check) == False:  # noqa: E712", "    if not np.all(check):", 'benign', ['C19'])
+
+# ---------------------------------------------------------------- C20 logging
+LG = 'emd/logger.py'
+add('c20-restore-only-on-success', LG, "        try:\n            func_output = func(*args, **kwargs)\n        finally:\n            if ('verbose' in kwargs) and (kwargs['verbose'] is not None):\n                # current_level is None if the logger has not been set up yet\n                if current_level is not None:\n                    set_level(level=logging._levelToName[current_level])\n",
+    "        func_output = func(*args, **kwargs)\n        if ('verbose' in kwargs) and (kwargs['verbose'] is not None):\n            # current_level is None if the logger has not been set up yet\n            if current_level is not None:\n                set_level(level=logging._levelToName[current_level])\n",
+    'breaking', ['C20'], 'C20.R1')
+add('c20-restore-none-unguarded', LG, "                if current_level is not None:\n                    set_level(level=logging._levelToName[current_level])",
+    "                set_level(level=logging._levelToName[current_level])", 'breaking', ['C20'], 'C20.R2')
+add('c20-restore-wrong-level', LG, "                    set_level(level=logging._levelToName[current_level])", "                    set_level(level=tmp_level)",
+    'breaking', ['C20'], 'C20.R1')
+add('c20-saved-after-change', LG, "            current_level = get_level()\n            set_level(level=tmp_level)", "            set_level(level=tmp_level)\n            current_level = get_level()",
+    'breaking', ['C20'], 'C20.R1')
+add('c20-wrapper-drops-kwargs', LG, "            func_output = func(*args, **kwargs)\n        finally:", "            func_output = func(*args)\n        finally:",
+    'breaking', ['C20'], 'C20.R4')
+add('c20-wrapper-calls-twice', LG, "            # Call function itself\n            func_output = func(*args, **kwargs)", "            # Call function itself\n            func(*args, **kwargs)\n            func_output = func(*args, **kwargs)",
+    'breaking', ['C20'], 'C20.R4')
+add('c20-set-level-all-handlers', LG, "    for handler in logger.handlers:\n        if handler.get_name() == 'console':\n            if level in ['INFO', 'DEBUG']:",
+    "    for handler in logger.handlers:\n        if True:\n            if level in ['INFO', 'DEBUG']:", 'breaking', ['C20'], 'C20.R5')
+add('c20-get-level-any-handler', LG, "        if handler.get_name() == 'console':\n            return handler.level", "        if handler.get_name() != 'file':\n            return handler.level",
+    'breaking', ['C20'], 'C20.R5')
+add('c20-sift-reads-level', S, "    _nsamples_warn(X.shape[0], max_imfs)\n\n    continue_sift = True\n    layer = 0\n\n    proto_imf = X.copy()",
+    "    _nsamples_warn(X.shape[0], max_imfs)\n    if logger.isEnabledFor(10):\n        sift_thresh = sift_thresh * 10\n\n    continue_sift = True\n    layer = 0\n\n    proto_imf = X.copy()",
+    'breaking', ['C20'], 'C20.R3')
